@@ -174,6 +174,35 @@ def run(ctx):
                 if ta != tb:
                     ctx.violation('expand', 'an integer weight m is not equivalent to m consecutive unit-weight records (results differ)',
                                   {'case_weighted': la, 'case_expanded': lb})
+    # ---- end to end: the vertex sets the SOLVER treats as sources / targets (the rows it starts from a random draw and updates) are the ones of the
+    #      network: directed calls on networks with vertices that only send or only receive; start states against the model, and rows against the lists
+    st_cases, st_meta = [], {}
+    for k in range(ctx.budget(60, 2000)):
+        sub = ctx.rng.fork('st%d' % k)
+        line, m = gen.gen_e2e(sub, 660000 + k, variant=(True, sub.chance(0.5), sub.chance(0.3)), maxit_max=6, r_max=2, trace=1, nmax=sub.choice([3, 5, 8]))
+        st_cases.append(line)
+        st_meta[660000 + k] = m
+    res3 = ctx.component('K-E2E(start states: which rows are drawn)', st_cases, keys={'status', 'start:u', 'start:v'})
+    if res3:
+        for c, m in st_meta.items():
+            tr = res3['impl'].get('E %d' % c)
+            if not tr:
+                continue
+            d = oracles.trace_dict(tr)
+            if d['status'][0][0] != 'OK':
+                continue
+            N, K = m['N'], m['K']
+            _, ul, vl = gen.model_lists(m['recs'], True, m['wtype'])
+            n_eval += 1
+            keys.add(('rows', len(ul) < N, len(vl) < N))
+            u = oracles.floats(d['u'][0][3:])
+            v = oracles.floats(d['v'][0][3:])
+            for name, mat, lst, what in (('out', u, ul, 'outgoing'), ('in', v, vl, 'incoming')):
+                wrong = [i for i in range(N) if (i in lst) != any(mat[i * K + k_] != 0.0 for k_ in range(K)) and (i not in lst)]
+                if wrong:
+                    ctx.violation('lists(end to end)', 'vertex #%d has no %s edge in any layer but its %s-membership row is not zero after the run: the solver treats another vertex set than the network\'s' % (wrong[0], what, name),
+                                  {'case': st_cases[c - 660000]})
+                    break
     ctx.oracle.update({'evaluations': n_eval, 'distinct_nontrivial': len(keys),
                        'rule': 'exhaustive family (labels a,b,c; weights 0,1,2; <= %d records for L=1, <= %d for L=2; both directions: %d cases) + random edge lists (N <= 40, parallel/reversed records, self-loops, all-zero records, real weights around 1e-6) checked against an independent python multigraph; weighted-vs-expanded end-to-end pairs. distinct = different (N, L, direction, has edges, has self-loop)' % (bounds[1], bounds[2], n_exh),
                        'exhaustive_cases': n_exh})
